@@ -73,6 +73,14 @@ def build(cfg):
         mesh = simlib.mixed_mesh_interior()
     else:
         mesh = simlib.gmsh_mesh(et, layers=1)
+        if cfg.get("mirror"):
+            # half model + its mirror image glued together with the library's own Symmetry / Merge: the mirrored elements keep their
+            # connectivity, so one element group mixes both numbering orientations (det F > 0 and < 0)
+            from EasyFEA import Mesh
+
+            other = mesh.copy()
+            other.Symmetry((1.0, 0.0, 0.0), (1.0, 0.0, 0.0))
+            mesh = Mesh.Merge([mesh, other])
         A = np.eye(3)
         if mesh.dim == 2:
             A[:2, :2] = A2
@@ -106,7 +114,7 @@ def job(cfg):
     n = K.shape[0]
     dof_n, dim = info["dof_n"], info["dim"]
     coords = np.asarray(simu.mesh.coord, dtype=float)
-    key = f"{kind} {cfg['elem']}" + (f" dim={cfg.get('dim')} {'Timoshenko' if cfg.get('timoshenko') else 'EulerBernoulli'}" if kind == "beam" else f" {cfg.get('law', '')}")
+    key = f"{kind} {cfg['elem']}" + (f" dim={cfg.get('dim')} {'Timoshenko' if cfg.get('timoshenko') else 'EulerBernoulli'}" if kind == "beam" else f" {cfg.get('law', '')}") + (" half + mirrored half" if cfg.get("mirror") else "")
     res.functions |= {"_Simu.Get_K_C_M_F", "_Simu.Assembly", f"{kind.capitalize()}.Construct_local_matrix_system", "Bilinear.LinearizedElasticity", "Bilinear.GradUGradV",
                       "Bilinear.UV", "Bilinear.BeamStiffness", "Bilinear.BeamMass", "Gauss.Gauss_factory", "_GroupElem.Get_B_e_pg", "_GroupElem.Get_weightedJacobian_e_pg"}
     kmax = float(np.abs(K).max())
@@ -305,6 +313,10 @@ def main():
         configs.append({"sim": "elastic", "elem": et, "law": laws3[i % len(laws3)]})
     for et in th:
         configs.append({"sim": "thermal", "elem": et})
+    for et, law in ((("TRI3", "iso_stress"), ("QUAD4", "aniso"), ("HEXA8", "iso")) if tier == "quick" else (("TRI3", "iso_stress"), ("TRI6", "ortho"), ("QUAD4", "aniso"), ("QUAD8", "trans"), ("TETRA4", "aniso"), ("HEXA8", "iso"))):
+        configs.append({"sim": "elastic", "elem": et, "law": law, "mirror": True})
+    for et in (["TRI6"] if tier == "quick" else ["TRI3", "TRI6", "QUAD9", "TETRA10"]):
+        configs.append({"sim": "thermal", "elem": et, "mirror": True})
     for et in segs:
         for dim in (1, 2, 3):
             for tim in (False, True):
